@@ -242,13 +242,43 @@ def ResTok (tok : Token) : ProcessResult → Prop
   | .splitWhitespace _ => False
   | _ => True
 
+/-- the node ids `ids` (those the sink hands out during a stretch that starts in `s`) are not elements of `s.dom` -/
+def FreshIds (s : State) (ids : List Id) : Prop := ∀ n ∈ ids, s.dom.isElement n = false
+
+theorem FreshIds.nil (s : State) : FreshIds s [] := fun _ h => by cases h
+
+theorem FreshIds.of_dom {s s1 : State} {ids : List Id} (h : FreshIds s1 ids) (he : TBSafe.Ext s.dom s1.dom) : FreshIds s ids := by
+  intro n hn
+  cases hc : s.dom.isElement n
+  · rfl
+  · have := isElement_ext he hc
+    rw [h n hn] at this; cases this
+
+theorem FreshIds.of_eq {s s1 : State} {ids : List Id} (h : FreshIds s1 ids) (he : s.dom = s1.dom) : FreshIds s ids := by
+  unfold FreshIds; rw [he]; exact h
+
+theorem FreshIds.append {s : State} {a b : List Id} (ha : FreshIds s a) (hb : FreshIds s b) : FreshIds s (a ++ b) := by
+  intro n hn
+  rcases List.mem_append.mp hn with h | h
+  · exact ha n h
+  · exact hb n h
+
+theorem FreshIds.of_size {s : State} {ids : List Id} (h : ∀ n ∈ ids, s.dom.size ≤ n) : FreshIds s ids := by
+  intro n hn
+  cases hc : s.dom.isElement n
+  · rfl
+  · exact absurd (isElement_lt hc) (Nat.not_lt.mpr (h n hn))
+
+/-- the node ids taken from the supply between `x` and `x'` are not elements of `s.dom` -/
+def FreshSup (s : State) (x x' : Aux) : Prop := ∀ used, x.supply = used ++ x'.supply → FreshIds s used
+
 /-- **the post-condition of a rule** run on a non-character token: with the nodes `ids` the sink handed
 out, the specification's rule `spec` maps the abstract state of `s` to that of the final state, makes
 the same DOM calls (up to the splitting of text insertions), gives the same answer to the tokenizer;
 `x'.stopped` = "stop parsing" was reached -/
 def TokPost (spec : SState → Spec.TreeModes.M (Step Id)) (s : State) (tok : Token) :
     ProcessResult → State → List Call → Prop :=
-  fun res s' calls => ResTok tok res ∧ MInv (applyRes res s') ∧ cfgOf s' = cfgOf s ∧ ∃ ids, ∀ x rest, AuxOk s x → x.supply = ids ++ rest →
+  fun res s' calls => ResTok tok res ∧ MInv (applyRes res s') ∧ cfgOf s' = cfgOf s ∧ ∃ ids, FreshIds s ids ∧ ∀ x rest, AuxOk s x → x.supply = ids ++ rest →
     ∃ x' ops, spec (absF s x) = .ok (stepOf res s' x') ∧ (x'.stopped = false → AuxOk (applyRes res s') x') ∧
       (x'.stopped = true → res = .done ∧ tok = .eof) ∧ x'.supply = rest ∧ OutRel res x.out x'.out ∧ x'.outs = x.outs ∧
       x'.fullLog = x.fullLog ++ ops ∧
@@ -323,16 +353,16 @@ structure Link (s : State) (x : Aux) (s' : State) (x' : Aux) (calls : List Call)
 states (typically `helper (absF s x) = .ok (absF s' x')` for a helper of the specification) -/
 def Tr (s s' : State) (calls : List Call) (R : Aux → Aux → Prop) : Prop :=
   MInv s' ∧ cfgOf s' = cfgOf s ∧ TBSafe.Ext s.dom s'.dom ∧
-    ∃ ids, ∀ x rest, AuxOk s x → x.supply = ids ++ rest → ∃ x', Link s x s' x' calls rest ∧ R x x'
+    ∃ ids, FreshIds s ids ∧ ∀ x rest, AuxOk s x → x.supply = ids ++ rest → ∃ x', Link s x s' x' calls rest ∧ R x x'
 
 theorem Tr.refl {s : State} (hm : MInv s) : Tr s s [] (fun x x' => x' = x) :=
-  ⟨hm, rfl, TBSafe.Ext.refl _, [], fun x rest hx hs => ⟨x, ⟨hx, by simpa using hs, rfl, rfl, rfl, [], by simp, fun _ _ => rfl⟩, rfl⟩⟩
+  ⟨hm, rfl, TBSafe.Ext.refl _, [], FreshIds.nil s, fun x rest hx hs => ⟨x, ⟨hx, by simpa using hs, rfl, rfl, rfl, [], by simp, fun _ _ => rfl⟩, rfl⟩⟩
 
 theorem Tr.trans {s s1 s2 : State} {c1 c2 : List Call} {R1 R2 : Aux → Aux → Prop}
     (h1 : Tr s s1 c1 R1) (h2 : Tr s1 s2 c2 R2) : Tr s s2 (c1 ++ c2) (fun x x2 => ∃ x1, R1 x x1 ∧ R2 x1 x2) := by
-  obtain ⟨_, hc1, he1, ids1, f1⟩ := h1
-  obtain ⟨hm2, hc2, he2, ids2, f2⟩ := h2
-  refine ⟨hm2, hc2.trans hc1, he1.trans he2, ids1 ++ ids2, ?_⟩
+  obtain ⟨_, hc1, he1, ids1, hf1, f1⟩ := h1
+  obtain ⟨hm2, hc2, he2, ids2, hf2, f2⟩ := h2
+  refine ⟨hm2, hc2.trans hc1, he1.trans he2, ids1 ++ ids2, hf1.append (hf2.of_dom he1), ?_⟩
   intro x rest hx hs
   obtain ⟨x1, l1, r1⟩ := f1 x (ids2 ++ rest) hx (by rw [hs, List.append_assoc])
   obtain ⟨x2, l2, r2⟩ := f2 x1 rest l1.aux l1.supply
@@ -345,15 +375,15 @@ theorem Tr.trans {s s1 s2 : State} {c1 c2 : List Call} {R1 R2 : Aux → Aux → 
 
 theorem Tr.conseq {s s' : State} {c : List Call} {R R' : Aux → Aux → Prop} (h : Tr s s' c R)
     (hr : ∀ x x', AuxOk s x → AuxOk s' x' → R x x' → R' x x') : Tr s s' c R' := by
-  obtain ⟨hm, hc, he, ids, f⟩ := h
-  refine ⟨hm, hc, he, ids, fun x rest hx hs => ?_⟩
+  obtain ⟨hm, hc, he, ids, hf, f⟩ := h
+  refine ⟨hm, hc, he, ids, hf, fun x rest hx hs => ?_⟩
   obtain ⟨x', l, r⟩ := f x rest hx hs
   exact ⟨x', l, hr x x' hx l.aux r⟩
 
 /-- a stretch without calls that the specification does not see (queries, parse errors) -/
 theorem Tr.of_same {s s' : State} {calls : List Call} (hm : MInv s) (hs : SameTB s s') (he : Ext2 s calls s')
     (hcalls : edits2 calls = []) : Tr s s' calls (fun x x' => x' = x ∧ absF s x = absF s' x) :=
-  ⟨hm.sameTB hs he.ext, cfgOf_of_same hm hs he.ext, he.ext, [], fun x rest hx hsup =>
+  ⟨hm.sameTB hs he.ext, cfgOf_of_same hm hs he.ext, he.ext, [], FreshIds.nil s, fun x rest hx hsup =>
     ⟨x, ⟨hx.of_same hm hs he.ext, by simpa using hsup, rfl, rfl, rfl, [], by simp, fun _ _ => by rw [hcalls]; rfl⟩,
       rfl, (absF_of_same x hm hs he.ext).symm⟩⟩
 
